@@ -102,6 +102,16 @@ def sep_statement(ra1, dec1, ra2, dec2):
     d2 = co.sphdist(np.deg2rad(ra1), np.deg2rad(dec1), np.deg2rad(ra2), np.deg2rad(dec2), units=["rad", "deg"])
     if np.abs(d2 - true).max() > 1e-11:
         return "mixed units"
+    # positions held in narrower floats are exact numbers too: the separation of the stored values, to the same tolerance
+    for narrow in ("f4", "f2"):
+        a1, b1, a2, b2 = (v.astype(narrow) for v in (ra1, dec1, ra2, dec2))
+        t4 = true_sep(a1.astype("f8"), b1.astype("f8"), a2.astype("f8"), b2.astype("f8"))
+        s4 = np.asarray(co.sphdist(a1, b1, a2, b2), dtype="f8")
+        if not (np.abs(s4 - t4).max() <= 1e-11):
+            return "sphdist accuracy for %s positions: %g" % (narrow, np.abs(s4 - t4).max())
+        m4 = np.asarray(co.sphdist(a1, b1, ra2, dec2), dtype="f8")
+        if not (np.abs(m4 - true_sep(a1.astype("f8"), b1.astype("f8"), ra2, dec2)).max() <= 1e-11):
+            return "sphdist accuracy for %s first positions, double second positions" % narrow
     return True
 
 
@@ -237,6 +247,45 @@ def conv_statement(lon, lat, poles_only=False):
     if true_sep(ra, dec, lon4.astype("f8"), lat4.astype("f8"))[a4].max(initial=0.0) > 1e-9:
         return "eq2xyz/xyz2eq round trip for float32 input"
     return True
+
+
+def long_catalog_statement(n):
+    """the conversion of a point does not depend on how long the array it arrives in is (catalogues beyond any block size)"""
+    import numpy as np
+    import esutil.coords as co
+    k = np.arange(n, dtype="f8")
+    lon = (k * 0.6180339887498949 * 360.0) % 360.0
+    lat = np.rad2deg(np.arcsin(((k * 0.7548776662466927) % 1.0) * 2 - 1))
+    pick = np.unique(np.concatenate([np.arange(3), np.arange(n - 3, n), (np.arange(1, 40) * (n // 40)) % n,
+                                     np.array([2 ** 16, 2 ** 20 - 1, 2 ** 20, 2 ** 20 + 1, 2 ** 21]) % n]))
+    for b1950 in (True, False):
+        for f in ("eq2gal", "gal2eq", "eq2ec", "ec2eq", "ec2gal", "gal2ec"):
+            lo, la = getattr(co, f)(lon, lat, b1950=b1950)
+            if lo.shape != (n,) or la.shape != (n,):
+                return "%s shape" % f
+            so, sa = getattr(co, f)(lon[pick], lat[pick], b1950=b1950)
+            if not (np.array_equal(lo[pick], so) and np.array_equal(la[pick], sa)):
+                return "%s b1950=%s: points of a %d-point catalogue convert differently from the same points in a short array" % (f, b1950, n)
+    for sel in (1, 2):
+        lo, la = co.euler(lon, lat, sel, b1950=True)
+        so, sa = co.euler(lon[pick], lat[pick], sel, b1950=True)
+        if not (np.array_equal(lo[pick], so) and np.array_equal(la[pick], sa)):
+            return "euler select=%d b1950: long and short arrays differ" % sel
+    return True
+
+
+contract("esutil.coords#long-catalogues", params={}, assumed=True, runtime_name="esutil.coords.euler",
+         why_assumed="bounded run-time stand-in: array lengths beyond any block a conversion might work in (the per-point "
+                     "arithmetic is covered by the conversions statement)",
+         rt_ensures={"a-point-converts-the-same-in-a-long-catalogue-as-in-a-short-array": "long_catalog_statement(n) is True"},
+         props=["C09"])
+
+
+@domain("esutil.coords#long-catalogues")
+def _dom_long(tier, seed):
+    sizes = [2 ** 20 + 5 + seed % 7] if tier == "quick" else [2 ** 20 + 5 + seed % 7, 2 ** 16 + 3, 3 * 2 ** 20 + 1]
+    for n in sizes:
+        yield dict(call=(lambda: None), args=[], ghost=dict(n=n), key="%d points" % n)
 
 
 contract("esutil.coords#conversions", params={}, assumed=True, runtime_name="esutil.coords.euler",
